@@ -16,7 +16,10 @@ import (
 // summary and footer hold for positions behind the chunk is shifted by the change in length, and
 // the chunk's own index entry gets the new lengths: the mutant differs from a valid file only by
 // what was put into the chunk, so the index-based readers get as far as the nested records.
-func rechunk(s *c10Seed, r *ref.Rec, inner []byte) []byte {
+func rechunk(s *c10Seed, r *ref.Rec, inner []byte) []byte { return rechunkDeclaring(s, r, inner, uint64(len(inner))) }
+
+// rechunkDeclaring is rechunk with the uncompressed size the chunk header (and its index entry) declare given separately.
+func rechunkDeclaring(s *c10Seed, r *ref.Rec, inner []byte, declared uint64) []byte {
 	ch := r.Chunk
 	stored, err := ref.Compress(ch.Compression, inner)
 	if err != nil {
@@ -25,7 +28,7 @@ func rechunk(s *c10Seed, r *ref.Rec, inner []byte) []byte {
 	var body []byte
 	body = binary.LittleEndian.AppendUint64(body, ch.StartTime)
 	body = binary.LittleEndian.AppendUint64(body, ch.EndTime)
-	body = binary.LittleEndian.AppendUint64(body, uint64(len(inner)))
+	body = binary.LittleEndian.AppendUint64(body, declared)
 	body = binary.LittleEndian.AppendUint32(body, 0)
 	body = binary.LittleEndian.AppendUint32(body, uint32(len(ch.Compression)))
 	body = append(body, ch.Compression...)
@@ -51,7 +54,7 @@ func rechunk(s *c10Seed, r *ref.Rec, inner []byte) []byte {
 		case f.ofChunkAt == r.Off && f.field == "compressed_size":
 			binary.LittleEndian.PutUint64(b[at:], uint64(len(stored)))
 		case f.ofChunkAt == r.Off && f.field == "uncompressed_size":
-			binary.LittleEndian.PutUint64(b[at:], uint64(len(inner)))
+			binary.LittleEndian.PutUint64(b[at:], declared)
 		}
 	}
 	return b
@@ -95,6 +98,22 @@ func (f structFamily) nested() []func() ([]byte, string) {
 		out = append(out, func() ([]byte, string) {
 			return rechunk(s, c, nil), fmt.Sprintf("records of the chunk at %d replaced by nothing", c.Off)
 		})
+		// stale slot: the chunk holds only a record-aligned prefix of an earlier chunk's records but
+		// declares that chunk's full uncompressed size - a reader that reuses the earlier chunk's
+		// buffer finds the earlier chunk's remaining records still lying behind the short payload
+		for pi := 0; pi < ci; pi++ {
+			pc := &recs[pi]
+			if pc.Op != ref.OpChunk || pc.Chunk.Uncompressed == nil {
+				continue
+			}
+			pin := pc.Chunk.Uncompressed
+			for k := 0; k < len(pc.Inner); k++ {
+				cut := pc.Inner[k].Off // prefix of k records
+				out = append(out, func() ([]byte, string) {
+					return rechunkDeclaring(s, c, pin[:cut], uint64(len(pin))), fmt.Sprintf("chunk at %d: records replaced by the first %d bytes of the chunk at %d, declaring that chunk's uncompressed size %d", c.Off, cut, pc.Off, len(pin))
+				})
+			}
+		}
 	}
 	return out
 }
@@ -332,6 +351,63 @@ func sizeFields(s *c10Seed) []c10Field {
 		}
 	}
 	walk(s.dec.Recs, 0, "")
+	return out
+}
+
+// siblings: every length/size/offset/count field set to each value the same field has in another
+// record of the same kind (one chunk declaring another chunk's size, one index entry pointing at
+// another entry's record): values that are plausible for the file, which no fixed hostile set contains.
+func (f structFamily) siblings() []func() ([]byte, string) {
+	var out []func() ([]byte, string)
+	s := f.seed
+	fields := sizeFields(s)
+	type key struct {
+		field string
+		w     int
+		op    string
+	}
+	groups := map[key][]c10Field{}
+	opOf := func(fl c10Field) string { // the record kind is the first word of the description
+		for i := 0; i < len(fl.what); i++ {
+			if fl.what[i] == '.' {
+				return fl.what[:i]
+			}
+		}
+		return fl.what
+	}
+	for _, fl := range fields {
+		name := fl.field
+		if i := strings.Index(name, "["); i >= 0 { // array entries of one field form one group
+			if j := strings.Index(name, "]"); j > i {
+				name = name[:i] + name[j+1:]
+			}
+		}
+		k := key{name, fl.w, opOf(fl)}
+		groups[k] = append(groups[k], fl)
+	}
+	for _, fl := range fields {
+		name := fl.field
+		if i := strings.Index(name, "["); i >= 0 {
+			if j := strings.Index(name, "]"); j > i {
+				name = name[:i] + name[j+1:]
+			}
+		}
+		cur := getLE(s.bytes[fl.off:], fl.w)
+		seen := map[uint64]bool{cur: true}
+		for _, other := range groups[key{name, fl.w, opOf(fl)}] {
+			v := getLE(s.bytes[other.off:], other.w)
+			if seen[v] {
+				continue
+			}
+			seen[v] = true
+			fl, v := fl, v
+			out = append(out, func() ([]byte, string) {
+				b := append([]byte(nil), s.bytes...)
+				putLE(b[fl.off:], fl.w, v)
+				return b, fmt.Sprintf("%s: %d -> %d (the value of the same field in another record)", fl.what, cur, v)
+			})
+		}
+	}
 	return out
 }
 
